@@ -104,6 +104,7 @@ func (l *lowerer) lower(t *Term) (string, error) {
 	if n, ok := l.names[t]; ok {
 		return n, nil
 	}
+	var rangeOf *ival
 	var body string
 	switch t.op {
 	case OpConst:
@@ -367,7 +368,9 @@ func (l *lowerer) lower(t *Term) (string, error) {
 		}
 		body = fmt.Sprintf("(%s %s)", fname, strings.Join(a, " "))
 		if !bv {
-			body = l.wrap(body, t.w, t.signed)
+			// the function's range is asserted once per application (a fact about the
+			// abstracted function) instead of wrapping the result in mod 2^w
+			rangeOf = typeRange(t.w, t.signed)
 		}
 	default:
 		return "", errUnsupported{opNames[t.op]}
@@ -375,6 +378,9 @@ func (l *lowerer) lower(t *Term) (string, error) {
 	n := fmt.Sprintf("t%d", l.next)
 	l.next++
 	fmt.Fprintf(l.out, "(define-fun %s () %s %s)\n", n, l.sort(t), body)
+	if rangeOf != nil {
+		fmt.Fprintf(l.out, "(assert (and (<= %s %s) (<= %s %s)))\n", intLit(rangeOf.lo), n, n, intLit(rangeOf.hi))
+	}
 	l.names[t] = n
 	return n, nil
 }
@@ -412,6 +418,7 @@ type solverProc struct {
 	seq    int
 	toMs   int
 	broken bool
+	log    *os.File // transcript (VERIF_SOLVER_LOG)
 }
 
 var solverSpawns int64
@@ -440,6 +447,9 @@ func startSolver(key string, timeoutMs int) (*solverProc, error) {
 	}
 	atomic.AddInt64(&solverSpawns, 1)
 	p := &solverProc{key: key, spec: spec, cmd: cmd, in: in, lines: make(chan string, 256), toMs: timeoutMs}
+	if d := os.Getenv("VERIF_SOLVER_LOG"); d != "" {
+		p.log, _ = os.Create(fmt.Sprintf("%s/%s-%d-%d.smt2", d, strings.ReplaceAll(key, "/", "_"), timeoutMs, cmd.Process.Pid))
+	}
 	go func() {
 		sc := bufio.NewScanner(outp)
 		sc.Buffer(make([]byte, 1<<20), 1<<26)
@@ -472,6 +482,9 @@ func (p *solverProc) send(s string) {
 	if p.broken {
 		return
 	}
+	if p.log != nil {
+		p.log.WriteString(s)
+	}
 	if _, err := io.WriteString(p.in, s); err != nil {
 		p.broken = true
 	}
@@ -502,6 +515,10 @@ func (p *solverProc) roundTrip(text string, hard time.Duration) ([]string, bool)
 	var out []string
 	timer := time.NewTimer(hard)
 	defer timer.Stop()
+	if p.log != nil {
+		t0 := time.Now()
+		defer func() { fmt.Fprintf(p.log, "; ^ %s took %dms -> %v\n", marker, time.Since(t0).Milliseconds(), out) }()
+	}
 	for {
 		select {
 		case ln, ok := <-p.lines:
